@@ -65,6 +65,7 @@ def build_pair(spec):
                                     {"at": at, "k": 3, "cmap": cm, "post": post1, "time": 0.4}])
     if ex is not None:
         raise RuntimeError("series construction failed: %s" % ex)
+    s._harness_info1 = infos[1]
     return s, infos[0], at, cm
 
 
@@ -264,6 +265,22 @@ class Limits:
                     if vel is not None and vid in fm.map_vid_to_row:
                         rr = fm.map_vid_to_row[vid]
                         b[2 * n], b[2 * n + 1] = vel[rr], vel[rr + 1]
+                if vel is not None and mode == "velocity":
+                    # the right-hand side itself, against the generated motion: every junction that keeps its equations carries
+                    # its own velocity (displacement to the next frame / elapsed time, rounded to 3 decimals), flagged or not
+                    info1 = s._harness_info1
+                    for vid, rr in fm.map_vid_to_row.items():
+                        j = jid_of.get(vid)
+                        if j is None:
+                            continue
+                        w0 = s.frames[0].vertices[vid]
+                        w1 = s.frames[1].vertices[info1["jvid"][j]]
+                        tv = ((w1.x - w0.x) / 0.4, (w1.y - w0.y) / 0.4)
+                        if abs(vel[rr] - tv[0]) > 5.1e-4 or abs(vel[rr + 1] - tv[1]) > 5.1e-4:
+                            viol.append({"what": "with an angle limit the velocity term of a junction that keeps its equations is not its own velocity",
+                                         "detail": {"junction": j, "flagged": vid in flagged, "rhs": [float(vel[rr]), float(vel[rr + 1])], "velocity": list(tv), "limit": limit}})
+                            break
+                    tags.append("velocity_rhs_checked")
                 if set(v for v, _ in keep_rows) != set(fm.map_vid_to_row):
                     viol.append({"what": "junction equations of the restricted system differ from 'junctions with three or more remaining interfaces'",
                                  "detail": {"got": sorted(fm.map_vid_to_row)[:30], "exp": sorted(v for v, _ in keep_rows)[:30]}})
